@@ -31,6 +31,22 @@ impl<T: FileStore> RecvTransaction<T> {
         &&& (o.timer.inactivity@.count == o.timer.inactivity@.max ==> self.timer.inactivity@.count == self.timer.inactivity@.max)
     }
 
+    /// the inactivity counter is as it was, or has been frozen (pause only counts pending expirations and stops)
+    pub open spec fn inactivity_kept(&self, o: Self) -> bool {
+        self.timer.inactivity == o.timer.inactivity || self.timer.inactivity.paused
+    }
+
+    /// everything except the received-data bookkeeping and the open staging file
+    pub open spec fn same_except_data(&self, o: Self) -> bool {
+        &&& self.metadata == o.metadata && self.file_size == o.file_size && self.checksum == o.checksum && self.config == o.config
+        &&& self.nak_received_file_size == o.nak_received_file_size
+        &&& self.nak_procedure == o.nak_procedure && self.delayed_nack_timers == o.delayed_nack_timers
+        &&& self.state == o.state && self.recv_state == o.recv_state && self.status == o.status
+        &&& self.timer == o.timer && self.condition == o.condition
+        &&& self.delivery_code == o.delivery_code && self.file_status == o.file_status
+        &&& self.ack == o.ack && self.prompt == o.prompt && self.naks == o.naks && self.finished == o.finished
+    }
+
     /// the bookkeeping of received data is untouched
     pub open spec fn data_unchanged(&self, o: Self) -> bool {
         &&& self.saved_segments == o.saved_segments
@@ -40,6 +56,8 @@ impl<T: FileStore> RecvTransaction<T> {
         &&& self.checksum == o.checksum
         &&& self.config == o.config
         &&& self.nak_received_file_size == o.nak_received_file_size
+        &&& self.nak_procedure == o.nak_procedure
+        &&& self.delayed_nack_timers == o.delayed_nack_timers
     }
 
     pub open spec fn same_except_finished(&self, o: Self) -> bool {
@@ -155,10 +173,76 @@ impl<T: FileStore> RecvTransaction<T> {
     }
 
     pub open spec fn same_except_naks(&self, o: Self) -> bool {
-        &&& self.data_unchanged(o)
+        &&& self.saved_segments == o.saved_segments && self.received_file_size == o.received_file_size
+        &&& self.metadata == o.metadata && self.file_size == o.file_size && self.checksum == o.checksum && self.config == o.config
+        &&& self.nak_received_file_size == o.nak_received_file_size && self.nak_procedure == o.nak_procedure
         &&& self.state == o.state && self.recv_state == o.recv_state && self.status == o.status
         &&& self.timer == o.timer && self.condition == o.condition
         &&& self.delivery_code == o.delivery_code && self.file_status == o.file_status
         &&& self.ack == o.ack && self.prompt == o.prompt && self.finished == o.finished
+    }
+}
+
+pub open spec fn pdu_in_range(p: PDU) -> bool {
+    match p.payload {
+        PDUPayload::FileData(d) => pdu_offset(d) + pdu_data(d).len() <= u64::MAX,
+        _ => true,
+    }
+}
+
+/// stands for `TransactionError::UnexpectedPDU(seq, mode, text)` (built with format!/to_owned)
+#[verifier::external_body]
+pub fn vx_unexpected_pdu() -> TransactionError {
+    unimplemented!()
+}
+
+impl<T: FileStore> RecvTransaction<T> {
+    /// stands for the block that sends the MetadataRecv indication and builds `self.metadata` from the Metadata PDU
+    #[verifier::external_body]
+    pub fn vx_store_metadata(&mut self, metadata: MetadataPDU)
+        ensures
+            final(self).metadata.is_some(),
+            final(self).same_except_metadata(*old(self)),
+    {
+        unimplemented!()
+    }
+
+    pub open spec fn same_except_metadata(&self, o: Self) -> bool {
+        &&& self.saved_segments == o.saved_segments && self.received_file_size == o.received_file_size
+        &&& self.file_size == o.file_size && self.checksum == o.checksum && self.config == o.config
+        &&& self.nak_received_file_size == o.nak_received_file_size
+        &&& self.nak_procedure == o.nak_procedure && self.delayed_nack_timers == o.delayed_nack_timers
+        &&& self.state == o.state && self.recv_state == o.recv_state && self.status == o.status
+        &&& self.timer == o.timer && self.condition == o.condition
+        &&& self.delivery_code == o.delivery_code && self.file_status == o.file_status
+        &&& self.ack == o.ack && self.prompt == o.prompt && self.naks == o.naks && self.finished == o.finished
+    }
+}
+
+pub open spec fn pdu_is_eof_ok(p: PDU) -> bool {
+    p.payload matches PDUPayload::Directive(Operations::EoF(e)) && e.condition == Condition::NoError
+}
+
+pub open spec fn pdu_eof_size(p: PDU) -> u64 {
+    match p.payload { PDUPayload::Directive(Operations::EoF(e)) => e.file_size, _ => 0 }
+}
+
+pub open spec fn nak_delay(p: NakProcedure) -> Duration {
+    match p { NakProcedure::Immediate(d) => d, NakProcedure::Deferred(d) => d }
+}
+
+impl<T: FileStore> RecvTransaction<T> {
+    /// the meaning of has_naks() (O-C08-hasnaks)
+    pub open spec fn needs_naks(&self) -> bool {
+        self.metadata.is_none() || match self.file_size {
+            Some(n) => exists|b: int| 0 <= b < n && !covered(self.saved_segments.0@, b),
+            None => self.saved_segments.0@.len() > 1,
+        }
+    }
+
+    /// the NAK queue asks for exactly what is missing (O-C08-all)
+    pub open spec fn naks_cover(&self) -> bool {
+        &&& gaps_exact(self.saved_segments.0@, requests_of(self.naks@, self.metadata.is_none()), 0, nak_window_end(self.file_size, self.saved_segments.0@))
+        &&& (self.metadata.is_none() ==> self.naks@.len() > 0 && self.naks@[0] == (SegmentRequestForm { start_offset: 0, end_offset: 0 }))
     }
 }
